@@ -431,6 +431,73 @@ func C13(c *fw.Ctx) {
 			}
 		}
 	}
+	// G2: an interactive session is the same bytes on stdin however the reads of stdin are answered:
+	// sessions of up to four lines with LF, CR LF and mixed endings (with and without a final ending),
+	// three default answers (a line, everything, one byte), up to two deviating reads each
+	{
+		lineSets := [][]string{
+			{model.KwPrint + " 1;"},
+			{model.KwVar + " a = 2;", model.KwPrint + " a;"},
+			{"1 + 1;", "", model.KwPrint + " \"x\";"},
+			{model.KwPrint + " zz;", model.KwPrint + " 3;"},
+			{"", ""},
+			{model.KwPrint + " \"a", "b\";", "4;"},
+		}
+		endings := [][2]string{{"\n", "\n"}, {"\r\n", "\r\n"}, {"\r\n", ""}, {"\n", ""}, {"\r\n", "\n"}, {"\n", "\r\n"}}
+		for _, ls := range lineSets {
+			for _, e := range endings {
+				var sb strings.Builder
+				for i, l := range ls {
+					sb.WriteString(l)
+					if i == len(ls)-1 {
+						sb.WriteString(e[1])
+					} else if i%2 == 0 {
+						sb.WriteString(e[0])
+					} else if e[1] != "" {
+						sb.WriteString(e[1])
+					} else {
+						sb.WriteString(e[0])
+					}
+				}
+				session := sb.String()
+				if !c.Mine() {
+					continue
+				}
+				var firstKey string
+				var firstSched []int
+				firstMode := -1
+				for mode := 0; mode < 3; mode++ {
+					bound := 2
+					if mode == 2 {
+						bound = 1
+					}
+					exploreReadsRepl(c, session, mode, bound, func(sched []int, o h.Outcome) {
+						c.Eval(fmt.Sprint("repl", mode, sched)+session, true)
+						c.R.States++
+						c.R.Transitions++
+						base := fw.Replay{Mode: "repl", Program: session, Choices: sched, StdinSch: true, StdinMode: mode, CLI: false, InStdout: o.Stdout, InStderr: o.Stderr, InStatus: o.Status}
+						if abnormal(c, o, "repl", session, base) {
+							return
+						}
+						key := fmt.Sprintf("%d\x00%s\x00%s", o.Status, o.Stdout, o.Stderr)
+						c.Outcome(key)
+						if firstMode < 0 {
+							firstKey, firstSched, firstMode = key, sched, mode
+							return
+						}
+						if key != firstKey {
+							r := base
+							r.Sig = "C13|outcome-differs|session-delivery"
+							r.What = "the same interactive session (the same bytes on stdin) differs with the sizes in which reads of stdin are answered"
+							r.Expected = fmt.Sprintf("default answer %d schedule %v: %q", firstMode, firstSched, trunc(firstKey, 300))
+							r.Observed = fmt.Sprintf("default answer %d schedule %v: %q", mode, sched, trunc(key, 300))
+							c.Violate(r)
+						}
+					})
+				}
+			}
+		}
+	}
 	// F: the same program executed several times in ONE process (as successive lines of one
 	// interactive session) responds identically every time
 	replLines := []string{
@@ -527,4 +594,28 @@ func C13(c *fw.Ctx) {
 	}
 	c.R.Traces = c.R.States
 	c.Sample(map[string]string{"program": model.Render([]*model.N{model.Print(model.Prop(model.Obj([]string{"kb", "ka"}, []*model.N{model.Num(0), model.Num(1)}), "zz"))}), "requirement": "one first diagnostic over all iteration orders of the quoted literal"})
+}
+
+// exploreReadsRepl is exploreReads for an interactive session (stdin is the session itself).
+func exploreReadsRepl(c *fw.Ctx, session string, mode, bound int, visit func(sched []int, o h.Outcome)) {
+	var rec func(sched []int, dev int)
+	rec = func(sched []int, dev int) {
+		o := h.RunRepl(session, h.Opts{StdinSchedule: true, StdinMode: mode, Prefix: sched, Fuel: 400000})
+		visit(append([]int{}, sched...), o)
+		if dev >= bound || c.Expired() {
+			return
+		}
+		for i := len(sched); i < len(o.Points); i++ {
+			if o.Points[i].Kind != "read" {
+				continue
+			}
+			for alt := 1; alt < 3; alt++ {
+				np := make([]int, i+1)
+				copy(np, sched)
+				np[i] = alt
+				rec(np, dev+1)
+			}
+		}
+	}
+	rec(nil, 0)
 }
